@@ -259,3 +259,33 @@ def find_keygen_seed_eta_refill(p, blocks, rng, budget=60000):
             if eta_accepts(p.eta, st) < 256:
                 return xi
     return None
+
+
+def find_keygen_seeds_t_band(name, rng, budget=4000, band=6, want=2):
+    """key seeds for which a coefficient of t = A*s1 + s2 mod q lies within `band` of 0 or q (tools/dvcheck/kgsearch.py,
+    run under the tooling python with numpy; [] when that interpreter is missing)"""
+    import subprocess, os, shutil
+    exe = shutil.which("python3-vt")
+    if not exe:
+        return []
+    here = os.path.join(os.path.dirname(os.path.abspath(__file__)), "kgsearch.py")
+    try:
+        out = subprocess.run([exe, here, name, str(rng.randrange(1 << 40)), str(budget), str(band), str(want)],
+                             capture_output=True, text=True, timeout=600).stdout
+    except Exception:
+        return []
+    return [bytes.fromhex(x) for x in out.split() if len(x) == 64]
+
+
+def keygen_pk_oracle(name, xi):
+    """the public key FIPS 204 / Dilithium 3.1 prescribe for seed xi, computed with numpy + hashlib (None if unavailable)"""
+    import subprocess, os, shutil
+    exe = shutil.which("python3-vt")
+    if not exe:
+        return None
+    here = os.path.join(os.path.dirname(os.path.abspath(__file__)), "kgsearch.py")
+    try:
+        out = subprocess.run([exe, here, "pk", name, xi.hex()], capture_output=True, text=True, timeout=120).stdout.split()
+    except Exception:
+        return None
+    return bytes.fromhex(out[0]) if out else None
